@@ -92,6 +92,10 @@ def scenarios(ctx, scripts):
             add(fam, dict(base, mode="lastused", wait=wait), st)
     # fixed corners
     add("corner", {"members": [], "init": "", "mode": "lastused-unattached", "wait": False}, [])
+    for bad, mem in (("gid", ["m1", "m2"]), ("count", ["m1", "m2", "m3"]), ("gid", ["m1"]), ("empty", [])):
+        for mode in ("event", "polldefault"):
+            add("corner", {"members": mem, "init": mem[0] if mem else "", "mode": mode, "wait": False, "badCfg": bad},
+                [{"a": "write", "n": 1}, {"a": "negotiationParams"}, {"a": "close"}])
     add("corner", {"members": ["m1", "m2", "m3"], "init": "m2", "mode": "event", "wait": True},
         [{"a": "memberRead", "src": "m1", "n": 1}, {"a": "memberRead", "src": "m3", "n": 2}, {"a": "select", "id": "m3"},
          {"a": "write", "n": 1}, {"a": "counters"}, {"a": "close"}, {"a": "read"}])
